@@ -23,7 +23,7 @@ Proof.
     destruct (live_peek s r) as [e s' r'|s' r'|e s' r'] eqn:Hp; try discriminate.
     + destruct (live_finish s') as [rep [e'|]]; [discriminate|]. intros H; inversion H; subst.
       exists s, r, op. split; [reflexivity|]. intros ? ? ? Hc; rewrite Hp in Hc; discriminate.
-    + destruct (lv_seen_doc_end s'); [|discriminate].
+    + destruct (lv_seen_doc_end s' && is_syntax_err e); [|discriminate].
       destruct (live_finish s') as [rep [e'|]]; [discriminate|]. intros H; inversion H; subst.
       exists s, r, op. split; [reflexivity|]. intros ? ? ? Hc; rewrite Hp in Hc; discriminate.
   - destruct (synthesized_first _ _); discriminate.
@@ -85,3 +85,11 @@ Proof.
   intros Hp Hn Hd Hs. cbn [read_iter]. rewrite Hp, Hn, Hd.
   destruct (skip_to_next_document s' (resume_point er rest')) as [[b s2] r2]. cbn in Hs. subst b. reflexivity.
 Qed.
+
+(* ... and an error that is not the scanner's own (a budget breach, an I/O failure) met while probing for
+   further content is returned, whatever has been seen before: it is never taken for trailing garbage *)
+Lemma single_never_drops_a_non_syntax_error fuel o t items v s r op e s' r' :
+  deser fuel (eo_cfg o) false t (SLive (live_new (eo_budget o) false (eo_limits o) false) items 0) = DOk v (SLive s r op) ->
+  live_peek s r = Fail e s' r' -> is_syntax_err e = false ->
+  from_str_model fuel o t items = OErr e.
+Proof. intros Hd Hp He. unfold from_str_model. rewrite Hd, Hp, He, andb_false_r. reflexivity. Qed.
